@@ -36,6 +36,14 @@ class LimitGatedScheduler {
     impl_->wait();
   }
 
+#if defined(__cpp_exceptions)
+  // Records the in-flight exception in the task set (the first one wins), for stage code that
+  // runs outside of a LimitGatedScheduler task (generator and single-stage functors).
+  static void captureCurrentException(ConcurrentTaskSet& tasks) {
+    tasks.trySetCurrentException();
+  }
+#endif
+
  private:
   // Put the guts within a unique_ptr to enable this type to be movable.
   class Impl {
@@ -442,15 +450,26 @@ class Pipe<StageClass::kGenerator, CurStage, PipeNext> {
         // stage inline and it throws).
         CompletionGuard cGuard(std::move(pending));
 
-        DISPENSO_VERIF_POINT("pipe.gen.hasException", this);
-        while (!tasks_.hasException()) {
-          auto op = stage_();
-          if (!op) {
-            break;
-          }
-          pipeNext_.execute(std::move(op.value()));
+        // The task set may run this functor inline inside execute(). An exception must not leave
+        // execute() while other generator tasks that reference this pipe are queued or running,
+        // so it is recorded in the task set, like for a queued task, and rethrown by wait().
+#if defined(__cpp_exceptions)
+        try {
+#endif
           DISPENSO_VERIF_POINT("pipe.gen.hasException", this);
+          while (!tasks_.hasException()) {
+            auto op = stage_();
+            if (!op) {
+              break;
+            }
+            pipeNext_.execute(std::move(op.value()));
+            DISPENSO_VERIF_POINT("pipe.gen.hasException", this);
+          }
+#if defined(__cpp_exceptions)
+        } catch (...) {
+          LimitGatedScheduler::captureCurrentException(tasks_);
         }
+#endif
       });
     }
   }
@@ -478,10 +497,19 @@ class Pipe<StageClass::kSingleStage, CurStage, SinkPipe> {
     size_t numThreads = std::min(tasks_.numPoolThreads(), StageLimits<CurStage>::limit(stage_));
     for (size_t i = 0; i < numThreads; ++i) {
       tasks_.schedule([this]() {
-        DISPENSO_VERIF_POINT("pipe.single.hasException", this);
-        while (!tasks_.hasException() && stage_()) {
+        // As for the generator: an inline run must not throw out of execute().
+#if defined(__cpp_exceptions)
+        try {
+#endif
           DISPENSO_VERIF_POINT("pipe.single.hasException", this);
+          while (!tasks_.hasException() && stage_()) {
+            DISPENSO_VERIF_POINT("pipe.single.hasException", this);
+          }
+#if defined(__cpp_exceptions)
+        } catch (...) {
+          LimitGatedScheduler::captureCurrentException(tasks_);
         }
+#endif
       });
     }
   }
